@@ -193,6 +193,7 @@ impl Subscription {
     pub async fn delete(&self) -> Result<(), DeleteError> {
         let topic = self.topic.upgrade();
         let name = self.name.clone();
+        let internal_id = self.internal_id;
         let sender = self.sender.clone();
 
         // The deletion runs in a task of its own. The subscription actor must never wait
@@ -203,7 +204,7 @@ impl Subscription {
             // subscriptions first, so that nothing further is posted to it.
             if let Some(topic) = topic {
                 topic
-                    .remove_subscription(name)
+                    .remove_subscription(name, internal_id)
                     .await
                     .map_err(|e| match e {
                         RemoveSubscriptionError::Closed => DeleteError::Closed,
